@@ -25,7 +25,16 @@ PRE = {
     "request_failed": ["reqfail 1", "emit 1", "emit 1"],
     "peer_eof+shutdown_write": ["peof", "shutw 1", "emit 1"],
     "shutdown_read+shutdown_write": ["shutr", "shutw 1", "emit 1"],
+    # the socket-style spellings: shutdown(how) with how = 0 (reads), 1 (writes), 2 (both)
+    "shutdown(0)": ["shut0"],
+    "shutdown(1)": ["shut1 1", "emit 1"],
+    "shutdown(2)": ["shut2 1", "emit 1"],
 }
+# states in which the documentation says further sends are disallowed / fail (shutdown: "If how is 1, further sends
+# are disallowed. If how is 2, further sends and receives are disallowed"; close: "All future read/write operations on
+# the channel will fail") — judged from the CALLS made, not from the flags the code happened to set
+WRITE_SHUT = {"shutdown_write", "close", "peer_close", "transport_lost", "request_failed", "peer_eof+shutdown_write",
+              "shutdown_read+shutdown_write", "shutdown(1)", "shutdown(2)"}
 EVENTS = {
     "none": [],
     "close": ["close 1"],
@@ -63,6 +72,13 @@ class Runner:
             return False
         if self.dead:
             return False
+        model_ops = [op]
+        if w[0] == "shut2":            # shutdown(2) = shutdown(0) then shutdown(1): two model actions
+            model_ops = ["shutr", "shutw " + w[1]]
+        elif w[0] == "shut1":
+            model_ops = ["shutw " + w[1]]
+        elif w[0] == "shut0":
+            model_ops = ["shutr"]
         try:
             self.rig.do(op)
         except lib_chan.RigDeadlock as e:
@@ -72,7 +88,10 @@ class Runner:
             self.reqs.append(op)
             self.impl.append("*")
             return False
-        self.reqs.append(op)
+        for extra in model_ops[:-1]:
+            self.reqs.append(extra)
+            self.impl.append("*")
+        self.reqs.append(model_ops[-1])
         self.impl.append(self.rig.view())
         if self.proto is None:
             self.proto = self.rig.protocol_problem()
@@ -174,7 +193,7 @@ def grid(ctx, rng, batches):
                                     continue
                                 run.step(op)
                             c = rig.chan
-                            dead = c.closed or c.eof_sent
+                            dead = c.closed or c.eof_sent or pre in WRITE_SHUT
                             run.step("sendall 0 %d %d" % (total, ext))
                             if ev == "none":
                                 run.drain_thread(0, wake_dt=(0, 2, 10))
